@@ -49,6 +49,7 @@ type fnCfg struct {
 type T struct {
 	p       *tr.Pkg
 	cfg     *fnCfg
+	order   map[string]int // declaration order of the variables (for stable argument lists)
 	env     map[string]*vinfo
 	refined map[string]bool
 	nLoop   int
@@ -320,6 +321,9 @@ type kont struct {
 }
 
 func (t *T) bind(name, kind string) string {
+	if _, ok := t.order[name]; !ok {
+		t.order[name] = len(t.order)
+	}
 	t.env[name] = &vinfo{coq: "v_" + name, kind: kind}
 	return "v_" + name
 }
@@ -340,15 +344,89 @@ func (t *T) call(e ast.Expr) (kind string, c *ast.CallExpr) {
 	case "findInRange":
 		return "findInRange", c
 	}
+	// an unexported helper of the package (function, or method of the stater): translated on demand
+	key := ""
+	switch f := c.Fun.(type) {
+	case *ast.Ident:
+		key = f.Name
+	case *ast.SelectorExpr:
+		if id, ok := f.X.(*ast.Ident); ok && id.Name == "s" {
+			key = "stater." + f.Sel.Name
+		}
+	}
+	if key != "" {
+		if _, err := helperCfg(t.p, key); err == nil {
+			return "helper:" + key, c
+		}
+	}
 	return "", nil
+}
+
+var helperDefs []string
+var helperDone = map[string]*fnCfg{}
+var helperStack = map[string]bool{}
+
+// helperCfg builds (and, the first time, translates) the configuration of a helper function.
+func helperCfg(p *tr.Pkg, key string) (*fnCfg, error) {
+	if c, ok := helperDone[key]; ok {
+		return c, nil
+	}
+	fd := p.FuncDecls()[key]
+	name := key[strings.LastIndex(key, ".")+1:]
+	if fd == nil || fd.Body == nil || ast.IsExported(name) || fd.Type.Results == nil {
+		return nil, fmt.Errorf("not a helper")
+	}
+	if helperStack[key] {
+		return nil, fmt.Errorf("recursive helper %s", key)
+	}
+	cfg := &fnCfg{key: key, name: "gen_h_" + name}
+	t0 := &T{p: p}
+	var rts, pv []string
+	for _, r := range fd.Type.Results.List {
+		k := t0.kindOf(p.Info.Types[r.Type].Type)
+		cfg.resKinds = append(cfg.resKinds, k)
+		switch k {
+		case "opt":
+			rts, pv = append(rts, "option state"), append(pv, "None")
+		case "err":
+			rts, pv = append(rts, "gerr"), append(pv, "GPanic")
+		default:
+			return nil, fmt.Errorf("helper %s: unsupported result kind %s", key, k)
+		}
+	}
+	if len(rts) == 0 || cfg.resKinds[len(rts)-1] != "err" {
+		return nil, fmt.Errorf("helper %s: the last result must be an error", key)
+	}
+	cfg.resType, cfg.panicVal = strings.Join(rts, " * "), "("+strings.Join(pv, ", ")+")"
+	helperStack[key] = true
+	def, err := translate(p, cfg)
+	delete(helperStack, key)
+	if err != nil {
+		return nil, err
+	}
+	helperDone[key] = cfg
+	helperDefs = append(helperDefs, def+"#[global] Hint Unfold "+cfg.name+" : genhelpers.\n")
+	return cfg, nil
 }
 
 // genCall renders a call of a generated function (ctx and s are dropped) returning the call text
 // and the expressions whose dereferences must be guarded.
 func (t *T) genCall(kind string, c *ast.CallExpr) (func() (string, error), []ast.Expr) {
-	args := c.Args[2:]
+	name := ""
+	if strings.HasPrefix(kind, "helper:") {
+		name = helperDone[strings.TrimPrefix(kind, "helper:")].name
+	} else {
+		name = fns[kind].name
+	}
+	var args []ast.Expr
+	for _, a := range c.Args {
+		if id, ok := a.(*ast.Ident); ok && (id.Name == "ctx" || id.Name == "s") {
+			continue
+		}
+		args = append(args, a)
+	}
 	return func() (string, error) {
-		out := "(" + fns[kind].name + " fuel Current State v_min"
+		out := "(" + name + " fuel Current State v_min"
 		for _, a := range args {
 			v, err := t.expr(a)
 			if err != nil {
@@ -395,7 +473,7 @@ func (t *T) block(l []ast.Stmt, k kont) (string, error) {
 	switch s := l[0].(type) {
 	case *ast.ReturnStmt:
 		if len(s.Results) == 1 {
-			if kind, c := t.call(s.Results[0]); kind == "findInRange" || kind == "findBound" {
+			if kind, c := t.call(s.Results[0]); kind == "findInRange" || kind == "findBound" || strings.HasPrefix(kind, "helper:") {
 				f, exprs := t.genCall(kind, c)
 				return t.guarded(exprs, f)
 			}
@@ -422,6 +500,39 @@ func (t *T) block(l []ast.Stmt, k kont) (string, error) {
 			}
 			return "Some ((" + strings.Join(vals, ", ") + "), tr)", nil
 		})
+	case *ast.SwitchStmt:
+		// tagless switch = if / else if chain (cases in source order, default last)
+		if s.Tag != nil || s.Init != nil {
+			return "", t.errf(s, "switch with tag or init")
+		}
+		var chain ast.Stmt
+		var deflt []ast.Stmt
+		var clauses []*ast.CaseClause
+		for _, c := range s.Body.List {
+			cc := c.(*ast.CaseClause)
+			if cc.List == nil {
+				deflt = cc.Body
+			} else {
+				clauses = append(clauses, cc)
+			}
+		}
+		if deflt != nil {
+			chain = &ast.BlockStmt{List: deflt}
+		}
+		for i := len(clauses) - 1; i >= 0; i-- {
+			cond := clauses[i].List[0]
+			for _, c := range clauses[i].List[1:] {
+				cond = &ast.BinaryExpr{X: cond, Op: token.LOR, Y: c}
+			}
+			chain = &ast.IfStmt{Cond: cond, Body: &ast.BlockStmt{List: clauses[i].Body}, Else: chain}
+		}
+		if chain == nil {
+			return rest()
+		}
+		if b, ok := chain.(*ast.BlockStmt); ok {
+			return t.block(append(append([]ast.Stmt{}, b.List...), l[1:]...), k)
+		}
+		return t.block(append([]ast.Stmt{chain}, l[1:]...), k)
 	case *ast.BranchStmt:
 		if s.Tok == token.CONTINUE && s.Label == nil && k.cont != nil {
 			return k.cont()
@@ -523,7 +634,9 @@ func (t *T) block(l []ast.Stmt, k kont) (string, error) {
 		})
 	case *ast.IfStmt:
 		if s.Init != nil {
-			return "", t.errf(s, "if with init")
+			plain := *s
+			plain.Init = nil
+			return t.block(append([]ast.Stmt{s.Init, &plain}, l[1:]...), k)
 		}
 		return t.guarded([]ast.Expr{s.Cond}, func() (string, error) {
 			c, err := t.expr(s.Cond)
@@ -603,7 +716,7 @@ func (t *T) block(l []ast.Stmt, k kont) (string, error) {
 				free = append(free, name)
 			}
 		}
-		sort.Strings(free)
+		sort.Slice(free, func(i, j int) bool { return t.order[free[i]] < t.order[free[j]] })
 		var fbinders, fargs []string
 		for _, v := range free {
 			fbinders = append(fbinders, fmt.Sprintf("(%s : %s)", t.env[v].coq, ty[t.env[v].kind]))
@@ -704,15 +817,19 @@ func translate(p *tr.Pkg, cfg *fnCfg) (string, error) {
 	if fd == nil {
 		return "", fmt.Errorf("%s: not found in source", cfg.key)
 	}
-	t := &T{p: p, cfg: cfg, env: map[string]*vinfo{}, refined: map[string]bool{}, fuel: "fuel"}
+	t := &T{p: p, cfg: cfg, env: map[string]*vinfo{}, refined: map[string]bool{}, fuel: "fuel", order: map[string]int{}}
+	ty := map[string]string{"z": "Z", "opt": "option state", "err": "gerr", "bool": "bool"}
+	var binders []string
 	for _, f := range fd.Type.Params.List {
 		for _, n := range f.Names {
 			if n.Name == "ctx" || n.Name == "s" {
 				continue
 			}
-			t.bind(n.Name, t.kindOf(p.Info.Defs[n].Type()))
+			kind := t.kindOf(p.Info.Defs[n].Type())
+			binders = append(binders, fmt.Sprintf("(%s : %s)", t.bind(n.Name, kind), ty[kind]))
 		}
 	}
+	cfg.params = strings.Join(binders, " ")
 	if fd.Type.Results == nil || len(fd.Type.Results.List) != len(cfg.resKinds) {
 		return "", fmt.Errorf("%s: unexpected result list", cfg.key)
 	}
@@ -757,16 +874,22 @@ func main() {
 	var text bytes.Buffer
 	text.WriteString(prelude)
 	failed := 0
+	var mainDefs bytes.Buffer
 	for _, k := range []string{"findInRange", "findBound", "searchTimestamp"} {
 		s, err := translate(p, fns[k])
 		if err != nil {
-			fmt.Fprintf(&text, "(* NOT TRANSLATED %s: %v *)\n\n", k, err)
+			fmt.Fprintf(&mainDefs, "(* NOT TRANSLATED %s: %v *)\n\n", k, err)
 			fmt.Fprintf(os.Stderr, "translator replicationcode: %s: %v\n", k, err)
 			failed++
 			continue
 		}
-		text.WriteString(s + "\n")
+		mainDefs.WriteString(s + "\n")
 	}
+	text.WriteString("Create HintDb genhelpers.\n\n")
+	for _, d := range helperDefs {
+		text.WriteString(d + "\n")
+	}
+	text.Write(mainDefs.Bytes())
 	if err := tr.Emit(filepath.Join(out, "GenReplicationCode.v"), text.Bytes()); err != nil {
 		fmt.Fprintln(os.Stderr, err)
 		os.Exit(1)
